@@ -52,6 +52,12 @@ CLAIMS = {
             "(1) 167 whitelist/LAN configurations x 3,790 RemoteAddr strings (IPv4, IPv6, mapped, bracket, zone, port variants, malformed) through getIPAccessControlFunc and accessControlHandler (403 and inner handler not run wherever the reference does not justify admission) plus a /16-granular sweep of the IPv4 space under all 16 LAN subsets; Run() and Server.Start() exercised once on real loopback sockets. (2) AmountToString/StringToAmount on every integer in [0, 2e7 -> 2e8], the top of the range, 31,789 structured values and a stride across [0, max] against integer division rendered canonically plus round trip; all short strings over a small alphabet for the parser. (3) 64 -> 1,024 keys and plot ids x all supported sizes listed through the real GetCapacitySpaces(.V2) methods against massutil binding targets / P2PKH addresses, decoded back with an independent base58check codec.",
             "host names in RemoteAddr out of scope (resolver); amount range dense only at both ends; SHA-256/RIPEMD-160/secp256k1 shared with the reference",
             "DESIGN.md §C20"),
+    "C08": ("model_checking",
+            "stateless enumeration of input scenarios x deviation-bounded schedules (timer firings, tip arrivals, Stop) of the real miner on a virtual clock, against a reference computed from the inputs",
+            "qsched",
+            "The real PoCMiner (NewSyncMiner) with its \"time\" import rewritten to a harness-owned virtual clock runs against a fake chain, sync manager and space keeper. Inputs: proof sets of 1-2 spaces (valid real bl-24 proofs for one challenge, unbound, errored, invalid), constant targets at every threshold between the reference qualities of the first six slots and step targets, 4-6 template times relative to now, accepted/rejected/orphaned submissions (~5k scenarios). Schedules: all timer firings with at most 1 (thorough: 2 on a subset) injected events (better tip, worse tip, Stop) at 12 positions of a 28-action horizon. Every block handed to ProcessBlock is checked: eligible verified bound proof, quality above target at its timestamp, earliest winning slot and best quality there, header key and signature, not before its timestamp, within look-ahead at decision time, no height accepted twice, no block when a better tip/Stop preceded the decision, Stop returns, winner submitted on undisturbed schedules.",
+            "at most two distinct valid proofs (a third key sharing a 24-bit challenge prefix is out of reach); heights below the MASSIP0002 plot filter; abandonment is required only for events delivered before the decision",
+            "DESIGN.md §C08"),
     "C09": ("model_checking",
             "explicit-state search over the real SpaceKeeper under a quiescence-based controlled scheduler (plotter gates H3, fake plot database); all action orders with canonical-state pruning",
             "qsched",
